@@ -290,7 +290,8 @@ func (batch *Batch) readMessage(
 			// on the underlying connection are repackaged.  Otherwise, the
 			// caller can't tell the difference between a batch that was fully
 			// consumed or a batch whose connection is in an error state.
-			batch.err = dontExpectEOF(err)
+			err = dontExpectEOF(err)
+			batch.err = err
 		case batch.msgs.remaining() == 0:
 			// Because we use the adjusted deadline we could end up returning
 			// before the actual deadline occurred. This is necessary otherwise
@@ -332,7 +333,8 @@ func (batch *Batch) readMessage(
 		// on the underlying connection are repackaged.  Otherwise, the
 		// caller can't tell the difference between a batch that was fully
 		// consumed or a batch whose connection is in an error state.
-		batch.err = dontExpectEOF(err)
+		err = dontExpectEOF(err)
+		batch.err = err
 	}
 
 	return
